@@ -342,6 +342,8 @@ class Evaluator:
                 env[nm] = self.eval(defaults[nm], {}, fn, depth + 1)
             else:
                 env[nm] = self.opaque(f'missing argument {nm} of {fn.qualname}')
+        if a.vararg is not None:
+            env[a.vararg.arg] = TList(list(vals[len(names):]))
         for p, d in zip(a.kwonlyargs, a.kw_defaults):
             if p.arg in kwargs:
                 env[p.arg] = kwargs[p.arg]
@@ -460,8 +462,18 @@ class Evaluator:
         return out
 
     def _adopt(self, env: Dict[str, Any], other: Dict[str, Any]):
+        # objects keep their identity across a branch that was forked off (the caller of a method holds the same object:
+        # `self._x = v` after an `if bad: raise` must be seen by whoever constructed self)
+        old = dict(env)
         env.clear()
-        env.update(other)
+        for k, v in other.items():
+            o = old.get(k)
+            if isinstance(v, TObj) and isinstance(o, TObj) and o.cls is v.cls and o is not v:
+                o.fields.clear()
+                o.fields.update(v.fields)
+                env[k] = o
+            else:
+                env[k] = v
 
     def _merge(self, env: Dict[str, Any], cond: Cond, a: Dict[str, Any], b: Dict[str, Any]):
         keys = set(a) | set(b)
@@ -500,7 +512,12 @@ class Evaluator:
                         fields[fk] = TStr([AltS(cond, fa_, fb_)])
                     else:
                         fields[fk] = TAlt(cond, fa_, fb_)
-                env[k] = TObj(va.cls, fields)
+                o = env.get(k)
+                if isinstance(o, TObj) and o.cls is va.cls:
+                    o.fields.clear()
+                    o.fields.update(fields)
+                else:
+                    env[k] = TObj(va.cls, fields)
                 continue
             if repr(va) == repr(vb):
                 env[k] = va
@@ -679,20 +696,7 @@ class Evaluator:
                 c = self.is_none(a)
                 return c if isinstance(op, ast.Is) else c_not(c)
             if isinstance(op, (ast.Eq, ast.NotEq, ast.Is, ast.IsNot)):
-                if b is TNone:
-                    c = self.is_none(a)
-                    return c if isinstance(op, ast.Eq) else c_not(c)
-                if isinstance(a, tuple) and a and a[0] == 'len' and isinstance(b, tuple) and b and b[0] == 'len':
-                    same = self._same_length(a[1], b[1])
-                    if same is not None:
-                        return TRUE if same == isinstance(op, (ast.Eq, ast.Is)) else FALSE
-                ka, kb = self.cond_leaf(a), self.cond_leaf(b)
-                if isinstance(a, (TConst, TEnum)) and isinstance(b, (TConst, TEnum)):
-                    same = repr(a) == repr(b)
-                    return TRUE if same == isinstance(op, (ast.Eq, ast.Is)) else FALSE
-                if isinstance(a, TStr) and isinstance(b, TStr) and a.is_const() and b.is_const():
-                    return TRUE if (a.const() == b.const()) == isinstance(op, ast.Eq) else FALSE
-                return Cond('eq' if isinstance(op, (ast.Eq, ast.Is)) else 'ne', (ka, kb))
+                return self._compare(a, b, isinstance(op, (ast.Eq, ast.Is)))
             if isinstance(op, (ast.In, ast.NotIn)):
                 member = self._element_of(a, b)
                 if member:
@@ -702,6 +706,50 @@ class Evaluator:
             return Cond('opaque', (ast.unparse(e)[:60],))
         v = self.eval(e, env, fn, depth)
         return self.truthy(v)
+
+    @staticmethod
+    def c_and(*cs: Cond) -> Cond:
+        if any(c == FALSE for c in cs):
+            return FALSE
+        cs = tuple(c for c in cs if c != TRUE)
+        return TRUE if not cs else cs[0] if len(cs) == 1 else Cond('and', cs)
+
+    @staticmethod
+    def c_or(*cs: Cond) -> Cond:
+        if any(c == TRUE for c in cs):
+            return TRUE
+        cs = tuple(c for c in cs if c != FALSE)
+        return FALSE if not cs else cs[0] if len(cs) == 1 else Cond('or', cs)
+
+    def _compare(self, a: Any, b: Any, eq: bool) -> Cond:
+        """a == b (eq) / a != b as a condition.  A value chosen by a condition (`X if c else Y`, a property with several
+        returns) is compared alternative by alternative: (c and X == b) or (not c and Y == b); an alternative that raises
+        does not come back and is left out."""
+        for x, y, swap in ((a, b, False), (b, a, True)):
+            if isinstance(x, TAlt):
+                if isinstance(x.a, TRaise):
+                    return self._compare(x.b, y, eq) if not swap else self._compare(y, x.b, eq)
+                if isinstance(x.b, TRaise):
+                    return self._compare(x.a, y, eq) if not swap else self._compare(y, x.a, eq)
+                ca = self._compare(x.a, y, eq) if not swap else self._compare(y, x.a, eq)
+                cb = self._compare(x.b, y, eq) if not swap else self._compare(y, x.b, eq)
+                if ca == cb:
+                    return ca
+                return self.c_or(self.c_and(x.cond, ca), self.c_and(c_not(x.cond), cb))
+        if b is TNone:
+            c = self.is_none(a)
+            return c if eq else c_not(c)
+        if isinstance(a, tuple) and a and a[0] == 'len' and isinstance(b, tuple) and b and b[0] == 'len':
+            same = self._same_length(a[1], b[1])
+            if same is not None:
+                return TRUE if same == eq else FALSE
+        ka, kb = self.cond_leaf(a), self.cond_leaf(b)
+        if isinstance(a, (TConst, TEnum)) and isinstance(b, (TConst, TEnum)):
+            same = repr(a) == repr(b)
+            return TRUE if same == eq else FALSE
+        if isinstance(a, TStr) and isinstance(b, TStr) and a.is_const() and b.is_const():
+            return TRUE if (a.const() == b.const()) == eq else FALSE
+        return Cond('eq' if eq else 'ne', (ka, kb))
 
     def _same_length(self, x: Any, y: Any) -> Optional[bool]:
         """True when the two list values certainly have the same number of elements (the same unfiltered repetitions and the
@@ -776,6 +824,8 @@ class Evaluator:
                 return v.cond
             if a == FALSE and b == TRUE:
                 return c_not(v.cond)
+            if a.op != 'opaque' and b.op != 'opaque':
+                return self.c_or(self.c_and(v.cond, a), self.c_and(c_not(v.cond), b))
             return Cond('opaque', ('is_none of alternative',))
         return FALSE
 
@@ -890,7 +940,23 @@ class Evaluator:
             a, b = self.eval(e.body, env, fn, depth), self.eval(e.orelse, env, fn, depth)
             return self._alt(c, a, b)
         if isinstance(e, (ast.List, ast.Tuple)):
-            return TList([self.eval(x, env, fn, depth) for x in e.elts])
+            items = []
+            for x in e.elts:
+                v = self.eval(x, env, fn, depth)
+                if isinstance(x, ast.Starred):
+                    # `[a, *rest, b]`: the elements of rest, in place
+                    if isinstance(v, TList):
+                        items.extend(v.items)
+                        continue
+                    if isinstance(v, TAlt) and isinstance(v.a, TList) and isinstance(v.b, TList):
+                        items.append(AltL(v.cond, list(v.a.items), list(v.b.items)))
+                        continue
+                    if isinstance(v, Sym) and strip_opt(v.typ)[0] == 'list':
+                        var = self.new_sym('item', TypeEnv.elem_type(strip_opt(v.typ)))
+                        items.append(RepL(Src(v, var, []), [TStr([Hole(var)])]))
+                        continue
+                items.append(v)
+            return TList(items)
         if isinstance(e, (ast.ListComp, ast.GeneratorExp)):
             return self.comprehension(e, env, fn, depth)
         if isinstance(e, ast.BinOp):
@@ -919,6 +985,20 @@ class Evaluator:
         if isinstance(e, ast.Starred):
             return self.eval(e.value, env, fn, depth)
         return self.opaque(f'expression {type(e).__name__}')
+
+    def class_attribute(self, cls: ClassInfo, attr: str, depth: int) -> Any:
+        """`NAME = <expr>` in the body of the class or of the nearest base class that has one (a class-level constant)."""
+        chain = [cls] + [a for a in self.prog.ancestors(cls) if isinstance(a, ClassInfo) and a is not cls]
+        for c in chain:
+            for st in c.node.body:
+                tg = st.targets[0] if isinstance(st, ast.Assign) and len(st.targets) == 1 else \
+                    st.target if isinstance(st, ast.AnnAssign) and st.value is not None else None
+                if isinstance(tg, ast.Name) and tg.id == attr:
+                    ctxfn = next(iter(c.methods.values()), None) or next(iter(c.module.functions.values()), None)
+                    if ctxfn is None:
+                        return None
+                    return self.eval(st.value, {}, ctxfn, depth + 1)
+        return None
 
     def from_symbol(self, sym: Any, name: str, fn: FuncInfo) -> Any:
         if isinstance(sym, tuple) and sym[0] == 'const':
@@ -989,6 +1069,9 @@ class Evaluator:
                 return ('bound', m, base)
             if '_' + attr in base.fields:
                 return base.fields['_' + attr]
+            cv = self.class_attribute(base.cls, attr, depth)
+            if cv is not None:
+                return cv
             return self.opaque(f'attribute {attr} of {base.cls.name}')
         if isinstance(base, TEnum):
             if attr == 'value':
@@ -1008,8 +1091,13 @@ class Evaluator:
             if c.is_enum and attr in c.enum_members:
                 return TEnum(c, attr)
             m = prog.lookup_method(c, attr)
+            if m is not None and getattr(m, 'is_classmethod', False):
+                return ('bound', m, base)
             if m is not None:
                 return TFunc(m, {})
+            cv = self.class_attribute(c, attr, depth)
+            if cv is not None:
+                return cv
         if isinstance(base, tuple) and base[0] == 'module':
             return self.from_symbol(prog.resolve_name(base[1], attr), attr, fn)
         if isinstance(base, tuple) and base and base[0] == 'ext':
@@ -1096,6 +1184,8 @@ class Evaluator:
             return TList(as_items(a) + as_items(b))
         if isinstance(a, TBlock):
             return TBlock(a.items + self.block_items(b, depth))
+        if isinstance(b, TAlt) and not isinstance(a, TAlt) and isinstance(a, (tuple, Sym, TObj)):
+            return self._alt(b.cond, self.add(a, b.a, fn, depth), self.add(a, b.b, fn, depth))
         # NamespaceIds + NamespaceIds and other package __add__
         for x in (a,):
             cls = None
@@ -1423,6 +1513,17 @@ class Evaluator:
     def call(self, e: ast.Call, env: Dict[str, Any], fn: FuncInfo, depth: int) -> Any:
         prog = self.prog
         f = e.func
+        # super().method(...): the next implementation above the class this code is written in, on the same object
+        if isinstance(f, ast.Attribute) and isinstance(f.value, ast.Call) and isinstance(f.value.func, ast.Name) and \
+                f.value.func.id == 'super' and not f.value.args and fn.cls is not None and 'self' in env:
+            for anc in prog.ancestors(fn.cls)[1:]:
+                if isinstance(anc, ClassInfo) and f.attr in anc.methods:
+                    args = [self.eval(a, env, fn, depth) for a in e.args if not isinstance(a, ast.Starred)]
+                    if len(args) != len(e.args):
+                        return self.opaque('star-arguments in a super() call')
+                    kwargs = {k.arg: self.eval(k.value, env, fn, depth) for k in e.keywords if k.arg}
+                    return self.call_function(anc.methods[f.attr], args, kwargs, depth + 1, self_val=env['self'])
+            return TNone        # object.__init__ and the like
         # method calls on abstract containers / strings
         if isinstance(f, ast.Attribute):
             recv = self.eval(f.value, env, fn, depth)
@@ -1443,7 +1544,17 @@ class Evaluator:
             callee = self.getattr(recv, f.attr, fn, depth)
         else:
             callee = self.eval(f, env, fn, depth)
-        args = [self.eval(a, env, fn, depth) for a in e.args]
+        args = []
+        for a in e.args:
+            if isinstance(a, ast.Starred):
+                # `f(x, *rest)`: a list of known length is spread over the positions
+                sv = self.eval(a.value, env, fn, depth)
+                if isinstance(sv, TList) and not any(isinstance(i_, (RepL, AltL)) for i_ in sv.items):
+                    args.extend(sv.items)
+                else:
+                    return self.opaque(f'star-argument `{ast.unparse(a)[:40]}` of unknown length')
+            else:
+                args.append(self.eval(a, env, fn, depth))
         kwargs = {k.arg: self.eval(k.value, env, fn, depth) for k in e.keywords if k.arg}
         return self.apply(callee, args, kwargs, e, env, fn, depth)
 
@@ -1466,6 +1577,22 @@ class Evaluator:
             return self.call_function(callee.fn, args, kwargs, depth + 1, closure=callee.env)
         if isinstance(callee, tuple) and callee[0] == 'bound':
             return self.call_function(callee[1], args, kwargs, depth + 1, self_val=callee[2])
+        if isinstance(callee, tuple) and callee[0] == 'lambda' and len(callee) == 3:
+            lam: ast.Lambda = callee[1]
+            la = lam.args
+            if la.vararg or la.kwarg or la.kwonlyargs or kwargs or len(args) > len(la.posonlyargs) + len(la.args):
+                return self.opaque(f'call of a lambda with an unmodelled signature `{ast.unparse(lam)[:40]}`')
+            lenv = dict(callee[2])
+            names = [p_.arg for p_ in list(la.posonlyargs) + list(la.args)]
+            dflt = dict(zip(names[len(names) - len(la.defaults):], la.defaults))
+            for i_, nm in enumerate(names):
+                if i_ < len(args):
+                    lenv[nm] = args[i_]
+                elif nm in dflt:
+                    lenv[nm] = self.eval(dflt[nm], dict(callee[2]), fn, depth + 1)
+                else:
+                    return self.opaque(f'missing argument {nm} of a lambda')
+            return self.eval(lam.body, lenv, fn, depth + 1)
         if isinstance(callee, tuple) and callee[0] == 'class':
             return self.construct(callee[1], args, kwargs, depth)
         if isinstance(callee, tuple) and callee[0] == 'builtin':
@@ -1756,6 +1883,12 @@ class Evaluator:
             v = args[0] if args else TNone
             if isinstance(v, TStr) and v.is_const():
                 return ('nsids', tuple(x for x in v.const().replace('::', '.').split('.') if x))
+            if isinstance(v, TStr) and len(v.parts) == 1 and isinstance(v.parts[0], AltS):
+                # a name chosen by a condition: the identifiers of either alternative
+                p_ = v.parts[0]
+                return self._alt(p_.cond, self.native(fnc, [p_.a], {}, depth), self.native(fnc, [p_.b], {}, depth))
+            if isinstance(v, TAlt):
+                return self._alt(v.cond, self.native(fnc, [v.a], {}, depth), self.native(fnc, [v.b], {}, depth))
             if isinstance(v, TList) and not v.items:
                 return ('nsids', ())
             return v
